@@ -16,8 +16,90 @@ struct C17 : Prop {
 		       "entity of bidib_get_state equals the corresponding single-entity getter field by field. non-trivial = results for known, unknown and NULL ids were retained "
 		       "across >=1 state change and the stop; distinct = (shape, trace).";
 	}
+	// ---- "hot entity" runs: one entity, two uplink messages A and B that each determine its state. Calibration phases deliver
+	// A, B, A, B with a quiescent read after each (RA, RB and a check that they are reproducible); then A and B alternate densely on
+	// the time grid while reader tasks call the entity's getter and bidib_get_state. A query result is a copy of ONE state of the
+	// entity: every concurrent result must equal RA or RB (a mix of both, or a copy of memory the receiver released meanwhile, is not).
+	struct Hot { std::string fn, key, idv; J a, b; bool ok = false; };
+	static J ev(const std::vector<uint8_t> &addr, int type, J data) { J e = J::obj(); e.set("node", pc::jaddr(addr)); e.set("type", type); e.set("data", data); return e; }
+	static Hot pick_hot(Rng &r, const cfg::World &w) {
+		std::vector<Hot> c;
+		const cfg::Board *to = nullptr;
+		for (auto &b : w.boards) if (b.present && b.track_output()) to = &b;
+		for (auto &b : w.boards) {
+			if (!b.present) continue;
+			for (auto &p : b.periphs) { Hot h; h.fn = "peripheral_state"; h.key = "peripherals"; h.idv = p.id; int va = p.aspects[0].value, vb = p.aspects.size() > 1 ? p.aspects[1].value : (int) (uint8_t) (va + 1);
+				h.a = ev(b.addr, MSG_LC_STAT, pc::jarr({p.port0, p.port1, va})); h.b = ev(b.addr, MSG_LC_STAT, pc::jarr({p.port0, p.port1, vb})); c.push_back(h); }
+			auto board_acc = [&](const cfg::BoardAcc &a, const char *fn, const char *key) { Hot h; h.fn = fn; h.key = key; h.idv = a.id; int va = a.aspects[0].value, vb = a.aspects.size() > 1 ? a.aspects[1].value : (int) (uint8_t) (va + 1);
+				h.a = ev(b.addr, MSG_ACCESSORY_STATE, pc::jarr({a.number, va, 4, 0, 0})); h.b = ev(b.addr, MSG_ACCESSORY_STATE, pc::jarr({a.number, vb, 4, 1, 20})); c.push_back(h); };
+			for (auto &a : b.points_board) board_acc(a, "point_state", "points_board");
+			for (auto &a : b.signals_board) board_acc(a, "signal_state", "signals_board");
+			auto dcc_acc = [&](const cfg::DccAcc &a, const char *fn, const char *key) { Hot h; h.fn = fn; h.key = key; h.idv = a.id;
+				h.a = ev(b.addr, MSG_CS_ACCESSORY_MANUAL, pc::jarr({a.addrl, a.addrh, 0x20})); h.b = ev(b.addr, MSG_CS_ACCESSORY_MANUAL, pc::jarr({a.addrl, a.addrh, 0x21})); c.push_back(h); };
+			if (b.track_output()) { for (auto &a : b.points_dcc) dcc_acc(a, "point_state", "points_dcc"); for (auto &a : b.signals_dcc) dcc_acc(a, "signal_state", "signals_dcc"); }
+			for (auto &g : b.segs) { Hot h; h.fn = "segment_state"; h.key = "segments"; h.idv = g.id;
+				J da = pc::jarr({g.addr}); for (int q = 0, n = (int) r.range(1, 3); q < n; q++) { da.push((int) r.byte()); da.push((int) r.below(0x28) | (r.coin() ? 0x80 : 0)); }
+				h.a = ev(b.addr, MSG_BM_ADDRESS, da); h.b = r.coin() ? ev(b.addr, MSG_BM_ADDRESS, pc::jarr({g.addr, 0, 0})) : ev(b.addr, MSG_BM_FREE, pc::jarr({g.addr})); c.push_back(h); }
+			for (auto &g : b.revs) { Hot h; h.fn = "reverser_state"; h.key = "reversers"; h.idv = g.id;
+				auto mk = [&](char v) { J d = J::arr(); d.push((int) g.cv.size()); for (char ch : g.cv) d.push((int) (uint8_t) ch); d.push(1); d.push((int) v); return ev(b.addr, MSG_VENDOR, d); };
+				h.a = mk('0'); h.b = mk('1'); c.push_back(h); }
+			if (b.booster()) { Hot h; h.fn = "booster_state"; h.key = "boosters"; h.idv = b.id; h.a = ev(b.addr, MSG_BOOST_STAT, pc::jarr({0x80})); h.b = ev(b.addr, MSG_BOOST_STAT, pc::jarr({0x02}));
+				if (r.coin()) { h.a = ev(b.addr, MSG_BOOST_DIAGNOSTIC, pc::jarr({0, 10, 1, 20, 2, 30})); h.b = ev(b.addr, MSG_BOOST_DIAGNOSTIC, pc::jarr({0, 200, 1, 210, 2, 220})); } c.push_back(h); }
+			if (b.track_output()) { Hot h; h.fn = "track_output_state"; h.key = "track_outputs"; h.idv = b.id; h.a = ev(b.addr, MSG_CS_STATE, pc::jarr({3})); h.b = ev(b.addr, MSG_CS_STATE, pc::jarr({0})); c.push_back(h); }
+		}
+		if (to) for (auto &t : w.trains) { Hot h; h.fn = "train_state"; h.key = "trains"; h.idv = t.id;
+			h.a = ev(to->addr, MSG_CS_DRIVE_MANUAL, pc::jarr({t.addrl, t.addrh, 3, 0x1F, 0x85, 0x1F, 0xFF, 0xFF, 0xFF})); h.b = ev(to->addr, MSG_CS_DRIVE_MANUAL, pc::jarr({t.addrl, t.addrh, 3, 0x1F, 0x02, 0, 0, 0, 0})); c.push_back(h); }
+		if (c.empty()) return Hot();
+		Hot h = c[r.below(c.size())]; h.ok = true; return h;
+	}
+	J generate_hot(Rng &r, const std::string &tier) {
+		bool thorough = tier == "thorough";
+		J plan = J::obj();
+		cfg::GenOpts o; o.max_boards = 3; o.max_trains = 2; o.allow_absent = false;
+		cfg::World w = cfg::gen_world(r, o);
+		cfg::install(plan, w, r);
+		Hot h = pick_hot(r, w);
+		if (!h.ok) return J();
+		J hot = J::obj(); hot.set("fn", h.fn); hot.set("key", h.key); hot.set("id", h.idv); plan.set("hot", hot);
+		J se = cfg::normal_session(0, 0);
+		J phs = J::arr();
+		auto getr = [&](const char *tag) { J g = J::obj(); g.set("op", "getr"); g.set("fn", h.fn); J s = J::arr(); s.push(h.idv); g.set("s", s); g.set("i", J::arr()); g.set("tag", tag); return g; };
+		auto quiesce = [&](J &ph) { J post = J::arr(); post.push("quiesce"); ph.set("post", post); };
+		for (int k = 0; k < 5; k++) {      // calibration: initial, A, B, A, B
+			J ph = J::obj();
+			if (k > 0) { J e = (k & 1) ? h.a : h.b; e.set("at_us", 0); J evs = J::arr(); evs.push(e); ph.set("bus", evs); quiesce(ph); phs.push(ph); ph = J::obj(); }
+			J ops = J::arr(); ops.push(getr(k == 0 ? "cal0" : k == 1 ? "calA" : k == 2 ? "calB" : k == 3 ? "calA2" : "calB2")); J tasks = J::arr(); tasks.push(ops); ph.set("tasks", tasks); quiesce(ph); phs.push(ph);
+		}
+		int grid = 5000, maxt = 1;
+		for (int rep = 0, nrep = (int) r.range(1, thorough ? 4 : 2); rep < nrep; rep++) {
+			J ph = J::obj(); J evs = J::arr();
+			int n = (int) r.range(4, thorough ? 40 : 20), gap = (int) r.range(1, 3) * grid, t = 0;
+			for (int i = 0; i < n; i++) { J e = (i & 1) ? h.b : h.a; t += gap; e.set("at_us", t); evs.push(e); }
+			ph.set("bus", evs);
+			int nt = (int) r.range(1, 3); maxt = std::max(maxt, nt);
+			J tasks = J::arr();
+			for (int q = 0; q < nt; q++) {
+				J ops = J::arr();
+				{ J s = J::obj(); s.set("op", "sleep"); s.set("us", (int) r.range(1, 3) * grid); ops.push(s); }
+				for (int i = 0, no = (int) r.range(3, thorough ? 30 : 16); i < no; i++) {
+					if (r.chance(750)) ops.push(getr("hot")); else { J g = J::obj(); g.set("op", "getr"); g.set("fn", "state"); g.set("s", J::arr()); g.set("i", J::arr()); g.set("tag", "hot"); ops.push(g); }
+					if (r.chance(600)) { J s = J::obj(); s.set("op", "sleep"); s.set("us", (int) r.range(1, 2) * grid); ops.push(s); }
+				}
+				tasks.push(ops);
+			}
+			ph.set("tasks", tasks); ph.set("compare", r.chance(500)); quiesce(ph); phs.push(ph);
+		}
+		se.set("phases", phs);
+		J ss = J::arr(); ss.push(se); plan.set("sessions", ss);
+		J sc = sched_json(r, tier, maxt + 1, true);
+		sc.set("fn_yield", (int) r.range(20, 250)); sc.set("grid_us", grid); sc.set("jitter_us", 0);
+		plan.set("sched", sc);
+		return plan;
+	}
+
 	J generate(Rng &r, const std::string &tier, uint64_t) override {
 		bool thorough = tier == "thorough";
+		if (r.chance(300)) { J hp = generate_hot(r, tier); if (hp.is_obj()) return hp; }
 		J plan = J::obj();
 		cfg::GenOpts o; o.max_boards = thorough ? 4 : 3; o.max_trains = 3; o.allow_absent = r.chance(400);
 		cfg::World w = cfg::gen_world(r, o);
@@ -56,12 +138,36 @@ struct C17 : Prop {
 	}
 
 	cfg::World world;
-	uint64_t known = 0, unknown = 0, nulls = 0, rechecks = 0, snapshot_cmp = 0, released = 0;
+	uint64_t known = 0, unknown = 0, nulls = 0, rechecks = 0, snapshot_cmp = 0, released = 0, hot_results = 0, hot_overlapping = 0;
+	bool is_hot = false, hot_determined = false;
+	J cal[5];
 
-	void attach(Engine &e) override { world = cfg::from_json(e.plan["world"]); known = unknown = nulls = rechecks = snapshot_cmp = released = 0; }
+	void attach(Engine &e) override {
+		world = cfg::from_json(e.plan["world"]); known = unknown = nulls = rechecks = snapshot_cmp = released = hot_results = hot_overlapping = 0;
+		is_hot = e.plan.has("hot"); hot_determined = false; for (auto &c : cal) c = J();
+	}
 
-	void after_op(Engine &, OpRec &o) override {
+	void hot_result(Engine &e, OpRec &o, const std::string &tag) {
+		static const char *tags[] = {"cal0", "calA", "calB", "calA2", "calB2"};
+		for (int k = 0; k < 5; k++) if (tag == tags[k]) { cal[k] = o.result; if (k == 4) hot_determined = cal[1].dump() == cal[3].dump() && cal[2].dump() == cal[4].dump() && cal[1].dump() != cal[2].dump(); return; }
+		if (tag != "hot" || !hot_determined) return;
+		const J &hot = e.plan["hot"];
+		hot_results++;
+		std::string got, ra, rb;
+		if (o.op->gets("fn") == "state") {
+			const J &part = o.result[hot.gets("key")];
+			if (!part.has(hot.gets("id"))) { e.violate("TORN_RESULT", "bidib_get_state", "bidib_get_state taken while " + hot.gets("id") + " was being updated does not contain it"); return; }
+			got = part[hot.gets("id")].dump();
+			if (hot.gets("fn") == "track_output_state") { ra = "{\"cs\":" + std::to_string(cal[1].geti("cs")) + "}"; rb = "{\"cs\":" + std::to_string(cal[2].geti("cs")) + "}"; J g = J::obj(); g.set("cs", part[hot.gets("id")].geti("cs")); got = g.dump(); }
+			else { ra = cal[1]["data"].dump(); rb = cal[2]["data"].dump(); }
+		} else { got = o.result.dump(); ra = cal[1].dump(); rb = cal[2].dump(); }
+		if (got != ra && got != rb)
+			e.violate("TORN_RESULT", "bidib_get_" + o.op->gets("fn"), "result of bidib_get_" + o.op->gets("fn") + " for " + hot.gets("id") + " taken while the receiver alternates between two states of it is a copy of neither: got " + got.substr(0, 500) + "; the two states read back at quiescent moments: " + ra.substr(0, 500) + " / " + rb.substr(0, 500));
+	}
+
+	void after_op(Engine &e, OpRec &o) override {
 		if (o.op->gets("op") != "getr") return;
+		if (is_hot) { hot_result(e, o, o.op->gets("tag")); return; }
 		const J &s = (*o.op)["s"];
 		bool n = false, u = false;
 		for (size_t i = 0; i < s.size(); i++) { if (s[i].is_null()) n = true; else if (s[i].str().compare(0, 6, "nosuch") == 0 || s[i].str() == "nofunc") u = true; }
@@ -100,10 +206,11 @@ struct C17 : Prop {
 		e.release_retained();
 	}
 	void coverage(Engine &e, J &f) override {
-		f.set("nontrivial", known > 0 && unknown > 0 && nulls > 0);
+		f.set("nontrivial", is_hot ? (hot_determined && hot_results > 0) : (known > 0 && unknown > 0 && nulls > 0));
 		f.set("shape", (long long) (pc::shape_hash(e.plan) >> 1));
 		J p = J::obj(); p.set("results_known_id", (long long) known); p.set("results_unknown_id", (long long) unknown); p.set("results_null_id", (long long) nulls);
 		p.set("rechecks", (long long) rechecks); p.set("snapshot_vs_single_comparisons", (long long) snapshot_cmp); p.set("results_freed", (long long) released);
+		p.set("hot_entity_runs", (long long) (is_hot ? 1 : 0)); p.set("hot_entity_states_reproducible", (long long) (hot_determined ? 1 : 0)); p.set("hot_entity_concurrent_results_judged", (long long) hot_results);
 		f.set("probes", p);
 	}
 };
